@@ -47,6 +47,7 @@ fn main() {
         }
         // statements + catalogue queries for a REAL SQLite engine (executed by vlib/engine.py: python's sqlite3)
         "engine-cases" => {
+            std::panic::set_hook(Box::new(|_| {}));    // refusals (panic!) of the renderers are expected outcomes of some cases
             let prop = args.get(2).map(|s| s.as_str()).unwrap_or("");
             let cases: Vec<String> = match prop {
                 "C13" => c13::cases().iter().map(|c| c.to_json()).collect(),
